@@ -39,7 +39,7 @@ def cases(tier, seed):
         for i, fv in enumerate(itertools.product(alpha, repeat=len(arcs))):
             if max(fv) == 0:
                 continue
-            yield {"fam": "dag", "nodes": names, "arcs": [[u, v, w] for (u, v), w in zip(arcs, fv)], "full": i % 4 == 0, "kcap": 2 if q else 3, "B": 1}
+            yield {"fam": "dag", "nodes": names, "arcs": [[u, v, w] for (u, v), w in zip(arcs, fv)], "full": i % (4 if len(arcs) <= 4 else 12) == 0, "kcap": 2 if q else 3, "B": 1}
     for idx, shp in enumerate(world.dig_shapes(4, amax)):
         if world.is_acyclic(*shp):
             continue
@@ -152,6 +152,14 @@ def run(case):
 
         if not obs["solved"]:
             kind = "mpe_unsolved_at_width"
+            if pool is not None:
+                # given weights: the model has exactly len(pool) routes, each pool entry used at most once; arcs with positive
+                # need must lie on a route, so a pool shorter than the covering number can be infeasible - ask the pool oracle
+                pcols = sorted(set(tuple(c[i] for i in idx) for c in family(case["B"])))
+                pb, _pw = fit.mpe_opt_pool(pcols, fv, sc, pool, len(pool), F)
+                if pb is None:
+                    tags["given_weights_infeasible(agreed)"] += 1
+                    return
             if cyc:
                 fam_cols = family(case["B"])
                 capped = [c for c in fam_cols if all(c[j] <= math.floor(caps[E[j]] + 1e-9) for j in range(len(E)))]
